@@ -17,6 +17,7 @@ require (
 	cosmossdk.io/math v1.5.0
 	cosmossdk.io/store v1.10.0-rc.1.0.20241218084712-ca559989da43
 	cosmossdk.io/x/bank v0.2.0-rc.1
+	cosmossdk.io/x/distribution v0.2.0-rc.1
 	cosmossdk.io/x/gov v0.2.0-rc.1
 	cosmossdk.io/x/slashing v0.2.0-rc.1
 	cosmossdk.io/x/staking v0.2.0-rc.1
@@ -53,7 +54,6 @@ require (
 	cosmossdk.io/x/authz v0.2.0-rc.1 // indirect
 	cosmossdk.io/x/circuit v0.2.0-rc.1 // indirect
 	cosmossdk.io/x/consensus v0.2.0-rc.1 // indirect
-	cosmossdk.io/x/distribution v0.2.0-rc.1 // indirect
 	cosmossdk.io/x/epochs v0.2.0-rc.1 // indirect
 	cosmossdk.io/x/evidence v0.2.0-rc.1 // indirect
 	cosmossdk.io/x/feegrant v0.2.0-rc.1 // indirect
